@@ -180,8 +180,65 @@ def w_dep(task):
     return out
 
 
+# ---------------------------------------------------------------- (b'') run-time part selects
+def check_ps(case):
+    layout, groups = G.ps_groups(case)
+    gs, want = G.ps_truth(layout, groups)
+    for g in gs.values():
+        if (M.find_cycle(g) is not None) != M.reaches_itself(g):
+            raise AssertionError(f"reference model inconsistent on {case}")
+    built = G.build_dep(layout, groups)
+    got = observe(lambda: built)
+    return want, got, gs
+
+
+PS_COUNTERS = ("evaluations", "distinct_nontrivial", "ps_designs", "ps_cycle_expected", "ps_accept_expected",
+               "ps_coarse_only_unspecified", "ps_coarse_only_observed_cycle", "ps_coarse_only_observed_ok",
+               "ps_cycle_needs_stride_1", "ps_cycle_through_offset_only", "ps_cycle_through_sign_bit_only",
+               "ps_cycle_single_window_bit", "ps_cycle_whole_window")
+
+
+def w_ps(task):
+    key, lo, hi = task
+    out = {"cov": {k: 0 for k in PS_COUNTERS}, "samples": [], "violations": [], "kinds": {}, "by_style": {}}
+    cov = out["cov"]
+    for case in _SPACE[key][lo:hi]:
+        want, got, gs = check_ps(case)
+        cov["evaluations"] += 1
+        cov["ps_designs"] += 1
+        cov["distinct_nontrivial"] += 1
+        bs = out["by_style"].setdefault(f"ps:{case['kind']}sel{case['w']}{'s' if case['signed'] else 'u'}", [0, 0])
+        if want == "ok":
+            cov["ps_accept_expected"] += 1
+            bs[0] += 1
+        elif want == "CombinationalCycle":
+            cov["ps_cycle_expected"] += 1
+            bs[1] += 1
+            cov["ps_cycle_single_window_bit" if case["take"] >= 0 else "ps_cycle_whole_window"] += 1
+            if M.find_cycle(gs["stridew"]) is None:
+                cov["ps_cycle_needs_stride_1"] += 1
+            # classify: does the loop survive without the value path / without sign extension?
+            unsigned = dict(case, signed=False)
+            if case["signed"] and G.ps_truth(*G.ps_groups(unsigned))[1] != "CombinationalCycle":
+                cov["ps_cycle_through_sign_bit_only"] += 1
+            if case["offsrc"] == "a" and G.ps_truth(*G.ps_groups(dict(case, offsrc="in")))[1] != "CombinationalCycle":
+                cov["ps_cycle_through_offset_only"] += 1
+        else:
+            cov["ps_coarse_only_unspecified"] += 1
+            if got == "CombinationalCycle":
+                cov["ps_coarse_only_observed_cycle"] += 1
+            elif got == "ok":
+                cov["ps_coarse_only_observed_ok"] += 1
+        if not agrees(want, got):
+            want_s = want if want != "either" else "ok|CombinationalCycle"
+            out["violations"].append({"sig": f"{G.ps_sig(case)}:got={got}:want={want_s}",
+                                      "what": f"part select {G.ps_sig(case)}: conversion outcome {got}, expected {want_s}",
+                                      "payload": case})
+    return out
+
+
 def _dispatch(t):
-    return (t[0], {"drv": w_drv, "dep": w_dep}[t[0]](t[1]))
+    return (t[0], {"drv": w_drv, "dep": w_dep, "ps": w_ps}[t[0]](t[1]))
 
 
 def plan(rep):
@@ -219,7 +276,16 @@ def plan(rep):
         for layout in layouts:
             for lo in range(0, len(_SPACE[key]), step):
                 tasks.append(("dep", (layout, (key, lo, lo + step), st)))
-    bounds = {"drv": [{"widths": list(w), "ordered_tuples_up_to": a, "multisets_up_to": b, "if_switch_cat_styles_for_tuples_up_to": s}
+    # run-time part selects of every shape feeding one window bit / the whole window back (same space in both tiers)
+    key = ("ps",)
+    _SPACE[key] = list(G.ps_cases())
+    for lo in range(0, len(_SPACE[key]), 300):
+        tasks.append(("ps", (key, lo, lo + 300)))
+    bounds = {"part_select": {"shapes": ["bit_select w=1..3", "word_select w=1..2"], "value_width": [3, 6], "signed": [False, True],
+                              "offset_width": [1, 3], "value": list(G.PS_SRCS), "offset": list(G.PS_OFFS), "path": list(G.PS_VIAS),
+                              "taken": "each single window bit and the whole window", "target": "every bit / every aligned slice",
+                              "designs": len(_SPACE[key])},
+              "drv": [{"widths": list(w), "ordered_tuples_up_to": a, "multisets_up_to": b, "if_switch_cat_styles_for_tuples_up_to": s}
                       for w, a, b, s in drv],
               "dep": [{"bits": n, "max_edges": e, "layouts": [list(l) for l in ls], "styles": len(G.styles(n))} for n, e, ls in dep],
               "dep_default_override": [{"bits": n, "max_edges": e, "layouts": [list(l) for l in ls],
@@ -272,7 +338,12 @@ def run(rep):
                "kind: override conditional (If, Switch case, nested If, Else) or unconditional, covering the whole signal / bit 0 / "
                "the high slice / the last bit, with the dependency placed in the default, the override value, the override "
                "condition or rotating over the signals (chains), plus a leading / trailing unconditional replacement of the "
-               "default; a bit depends on an earlier assignment unless a later unconditional assignment covers it. non-trivial: "
+               "default; a bit depends on an earlier assignment unless a later unconditional assignment covers it. "
+               "(b'') every run-time bit_select(off, 1..3) / word_select(off, 1..2) on a (signed|unsigned) value of width 3..6 (whole "
+               "signal, low or high slice, directly or through a second signal) with a 1..3 bit offset (free input or bits of the "
+               "same signal), each single window bit and the whole window assigned to every bit / slice of the signal: "
+               "CombinationalCycle required iff the per-bit graph (window bit k <- offset, value[k + off*stride], sign bit past the "
+               "MSB) has a cycle, acceptance required iff even the word-level graph has none. non-trivial: "
                "designs with >= 2 drivers / with >= 1 dependency edge")
     for case in SAMPLE_CASES:          # a few fixed members of the space, evaluated here so that the evidence shows real outcomes
         if case["part"] == "drv":
@@ -299,6 +370,10 @@ def run(rep):
                 "ov_accept_default_replaced_by_leading_unconditional_assignment", "ov_accept_near_miss_with_override",
                 "ov_dead_default_unspecified", "ov_cycle_chain_over_2_signals", "ov_cycle_chain_over_3_signals"):
         rep.require(rep.cov.get(key, 0) > 0, f"{key} is zero")
+    for key in ("ps_cycle_expected", "ps_accept_expected", "ps_coarse_only_unspecified", "ps_cycle_needs_stride_1",
+                "ps_cycle_through_offset_only", "ps_cycle_through_sign_bit_only", "ps_cycle_single_window_bit",
+                "ps_cycle_whole_window"):
+        rep.require(rep.cov.get(key, 0) > 0, f"{key} is zero")
     for role in ("d", "v", "c", "m0", "m1", "m2"):
         for cond in G.OV_CONDS:
             if cond == "u" and role != "d" and role != "v":
@@ -309,6 +384,8 @@ def run(rep):
     rep.assume("a loop that exists only through an assignment made unobservable by a LATER unconditional assignment is accepted "
                "either way (ok or CombinationalCycle), except when the dead assignment is an unconditional whole-signal one in the "
                "leading run of such assignments of its signal (then the design must be accepted)")
+    rep.assume("a loop through a run-time part select that exists only under the word-level reading (every window bit depends on "
+               "every value bit) is accepted either way; the older bsel_* edge kinds keep the word-level reading of the statement")
     rep.assume("an asynchronous memory read port makes its data depend combinationally on its address; Instances are not used "
                "inside dependency paths; If/Elif chains and don't-care patterns are not generated (their condition dependencies "
                "are not fixed by the statement)")
@@ -317,6 +394,8 @@ def run(rep):
 def replay(payload):
     if payload["part"] == "drv":
         want, got = check_drv(payload)
+    elif payload["part"] == "ps":
+        want, got = check_ps(payload)[:2]
     else:
         want, got = check_dep(payload)[:2]
     if not agrees(want, got):
